@@ -3,22 +3,31 @@ Model driver for the `scope` line protocol (C11).  One operation per input line,
 operation (same format as `harness/cmd/scope drive`):
 
   reset                         -> ok                      (start of a history: empty state)
-  new                           -> <res> E[..] C[..] S[..]
+  new                           -> <res> E[..] C[..] S[..] G[..] T[..]
   child <p> shared|isolated
   on <s> <event> ok|err
+  on <s> <event> gate <g> ok|err   (a listener that runs until gate g is released, then returns ok/err;
+                                    close events only)
+  release <g>                   (opens gate g for good; the goroutines parked on it run on, lowest scope first)
   addtasks <s> <n> | donetask <s> | apperr <s> | kill <s> | stop <s>
   close <s>                     (the harness runs Close in its own goroutine)
-  settle                        -> ok E[whole log] C[every Close result so far] S[..]
+  settle                        -> ok E[whole log] C[every Close result so far] S[..] G[..] T[..]
 
-  <res>  ok | refused | panic | invalid (no such scope / child of a finished scope) |
+  <res>  ok | refused | panic | invalid (no such scope / child of a scope that has signed off / gated
+         listener on a non-close event) | busy (On while a listener of that event scope is running: not executed) |
          undisciplined (DoneTask without an outstanding task: not executed) |
-         blocked (Close has begun and waits) | closed (Close has begun and returned)
+         blocked (Close has begun and waits or is parked in a listener) | closed (Close has begun and returned)
   E[..]  listener invocations caused by the operation: <listener>:<event>:<data scope or ->
   C[..]  Close calls that returned during the operation, in order: <scope>=<1 if it returned an error>
   S[..]  per scope <IsDone as 0/1>.<len(Errors())>
+  G[..]  the closing goroutines parked inside a listener: <scope>@<listener>
+  T[..]  per scope the number of close events it has fired
 
 The driver runs one particular schedule of the transition system: after every operation it takes the
-enabled `propagate`/`watcherExit`/`finish` steps until none is left (the harness waits for the same).
+enabled `propagate`/`watcherExit` steps and then lets the closing goroutine with the lowest scope number
+that can move run until it cannot (`step` until disabled), until nothing can move (the harness waits for
+the same; a goroutine released by a sign-off belongs to an ancestor, which has a lower number, so the
+order is the causal one).
 A watcher woken by a plain `Stop` reads the parent's errors before the Stop listeners run (the harness
 waits for it there), hence the clean variant for the direct isolated children of a context stopped by
 this very operation.
@@ -65,20 +74,29 @@ def propagateAll (st : State) (clean : Option Nat) : State := Id.run do
 /-- take enabled steps until quiescence; returns the Close calls that returned -/
 partial def settle (st : State) (clean : Option Nat) (acc : List (Nat × Bool)) : State × List (Nat × Bool) :=
   let st := propagateAll st clean
-  match (List.range st.nScopes).find? fun s => (st.scp s).phase == .closing && (st.scp s).wg == 0 with
+  match (List.range st.nScopes).find? fun s => (micro st s).isSome with
   | some s =>
-    match exec st (.finish s) with
-    | some (st', .closed e) => settle st' none (acc ++ [(s, e)])
-    | _ => (st, acc)
+    match runSteps micro s 64 st with
+    | (st', .closed e) => settle st' none (acc ++ [(s, e)])
+    | (st', _) => settle st' none acc
   | none => (st, acc)
 
 structure Drv where
   st : State := {}
   closes : List (Nat × Bool) := []
 
+def showParked (st : State) : String :=
+  ",".intercalate <| (List.range st.nScopes).filterMap fun s =>
+    match (st.scp s).park with
+    | some p => some s!"{s}@{p.lid}"
+    | none => none
+
+def showFired (st : State) : String :=
+  ",".intercalate <| (List.range st.nScopes).map fun s => toString (st.closeTrace s).length
+
 def showLine (res : String) (es : List Entry) (cs : List (Nat × Bool)) (st : State) : String :=
   let c := ",".intercalate (cs.map fun (s, e) => s!"{s}={if e then 1 else 0}")
-  s!"{res} E[{",".intercalate (es.map showEntry)}] C[{c}] S[{showScopes st}]"
+  s!"{res} E[{",".intercalate (es.map showEntry)}] C[{c}] S[{showScopes st}] G[{showParked st}] T[{showFired st}]"
 
 /-- run one act of the protocol and settle -/
 def doAct (d : Drv) (a : Act) (isClose : Option Nat := none) : Drv × String :=
@@ -87,6 +105,8 @@ def doAct (d : Drv) (a : Act) (isClose : Option Nat := none) : Drv × String :=
   | none =>
     let res := match a with
       | .doneTask s => if s < st.nScopes then "undisciplined" else "invalid"
+      | .on s _ _ => if s < st.nScopes then "busy" else "invalid"
+      | .onGated s ev _ _ => if s < st.nScopes && ev.isClose then "busy" else "invalid"
       | _ => "invalid"
     (d, showLine res [] [] st)
   | some (st1, out) =>
@@ -118,6 +138,12 @@ def stepLine (d : Drv) (line : String) : Drv × String :=
     | some s, some e, "ok" => doAct d (.on s e false)
     | some s, some e, "err" => doAct d (.on s e true)
     | _, _, _ => bad
+  | ["on", s, e, "gate", g, r] =>
+    match s.toNat?, parseEv e, g.toNat?, r with
+    | some s, some e, some g, "ok" => doAct d (.onGated s e false g)
+    | some s, some e, some g, "err" => doAct d (.onGated s e true g)
+    | _, _, _, _ => bad
+  | ["release", g] => match g.toNat? with | some g => doAct d (.release g) | none => bad
   | ["addtasks", s, n] =>
     match s.toNat?, n.toNat? with
     | some s, some n => doAct d (.addTasks s n)
